@@ -14,6 +14,7 @@ import JanetModel.Marsh.GraphInbounds
 import JanetModel.Asm.OperandLemmas
 import JanetModel.Marsh.EnvBitsetLemmas
 import JanetModel.Marsh.CodeRoundtrip
+import JanetModel.Marsh.AbstractLemmas
 
 namespace JanetModel.Props.C09
 open JanetModel.Marsh JanetModel.Gen.Marsh
@@ -271,7 +272,7 @@ example : HeapCWF (fun _ => true) exCode := by
   · intro d hd
     simp only [exCode, List.mem_cons, List.mem_nil_iff, or_false] at hd
     rcases hd with rfl | rfl <;> constructor <;>
-      simp [Marsh.Int32, OptWF, hasFlag, ValWF, SymWF, SmWF, JanetModel.Gen.MarshCode.maxSlotcount, JanetModel.Gen.MarshCode.fdHasName,
+      simp [Marsh.Int32, OptWF, hasFlag, ValWF, SymWF, JanetModel.Gen.MarshCode.maxSlotcount, JanetModel.Gen.MarshCode.fdHasName,
         JanetModel.Gen.MarshCode.fdHasSource, JanetModel.Gen.MarshCode.fdHasSymbolMap, JanetModel.Gen.MarshCode.fdHasEnvs,
         JanetModel.Gen.MarshCode.fdHasDefs, JanetModel.Gen.MarshCode.fdHasSourceMap, JanetModel.Gen.MarshCode.fdHasCloBitset]
   · intro e he
@@ -282,6 +283,77 @@ example : HeapCWF (fun _ => true) exCode := by
 /-- a description whose funcdefs are not in `seen_defs` order is rejected (the hypothesis of the theorems is not vacuous for
 the wrong reason) -/
 example : marshalC topFuel { exCode with objs := [.func 1 [0]] } (.ref 0) ⟨0, 0, 0⟩ = none := by decide
+
+
+/-! ### abstract types: the hook protocol, boxed 64-bit integers, channels with queued items  (Marsh/Abstract.lean)
+
+An abstract's marshal hook writes through its context: calls before `janet_marshal_abstract` (`pre`), MARK_SEEN, calls after
+(`post`).  Its unmarshal hook is a program over the context calls (`Prog`).  `WellPaired prog pre post` is a statement about
+the two hooks alone (no wire): the program, fed `pre`, reaches `janet_unmarshal_abstract` exactly then, and fed `post`,
+returns exactly then, asking each time for the kind of item that was written. -/
+
+/-- **Round trip for every well-paired hook pair**, at the wire level, with values passed through `janet_marshal_janet`
+handled by `marshal_one` / `unmarshal_one` of Code.lean (so they may be shared with, or point back into, the rest of the graph):
+the unmarshal hook reads back exactly the calls the marshal hook made, the abstract gets the reference number the marshaller
+gave it, objects created inside `pre` / `post` are numbered before / after it, and the buffer is left where the marshaller
+stopped.  (`mk` is how a description records an abstract; the dispatch on the type name is outside the model.) -/
+theorem abstract_hook_roundtrip (T : Heap) (vf : Def → Bool) (hT : HeapCWF vf T) (fm fu : Nat) (hfu : fm ≤ fu)
+    (prog : Prog) (pre post : List AItem) (hwp : WellPaired prog pre post)
+    (hpre : ∀ it ∈ pre, ItemWF it) (hpost : ∀ it ∈ post, ItemWF it)
+    (mk : List AItem → List AItem → CObj) (id : Nat) (ho : T.objs[id]? = some (mk pre post))
+    (c : Ct) (bs : List Nat) (c' : Ct) (tl : List Nat) (hc : c ≤ T.size)
+    (hm : marshalHook (fun v c => marshalC fm T v c) id pre post c = some (bs, c')) :
+    unmarshalHook (fun c d => unmarshalC fu vf c d) prog mk c (bs ++ tl) = some (.ref id, tl, T.slice c c') :=
+  (hook_paired T _ _ (fun v hv => (all_roundtrip T vf hT fm).1 fu hfu v hv) prog pre post hwp hpre hpost mk id ho
+    c bs c' tl hc hm).2.2
+
+/-- `int64_marshal` / `int64_unmarshal` (int/s64 and int/u64 boxes) are well paired, for every 64-bit value -/
+theorem int64_hooks_paired (u : Nat) : WellPaired int64Prog (int64Items u).1 (int64Items u).2 := int64_wellPaired u
+
+/-- … so a boxed 64-bit integer survives: the value read back is the value written (every `uint64_t`) -/
+theorem int64_box_roundtrip (T : Heap) (vf : Def → Bool) (hT : HeapCWF vf T) (fuel : Nat) (u : Nat) (hu : u < 18446744073709551616)
+    (name : Val) (id : Nat) (ho : T.objs[id]? = some (.abs name [] [.i64 u]))
+    (c : Ct) (bs : List Nat) (c' : Ct) (tl : List Nat) (hc : c ≤ T.size)
+    (hm : marshalHook (fun v c => marshalC fuel T v c) id [] [.i64 u] c = some (bs, c')) :
+    unmarshalHook (fun c d => unmarshalC fuel vf c d) int64Prog (CObj.abs name) c (bs ++ tl) = some (.ref id, tl, T.slice c c') :=
+  abstract_hook_roundtrip T vf hT fuel fuel (Nat.le_refl _) int64Prog [] [.i64 u] (int64_wellPaired u)
+    (by simp) (by simp [ItemWF, hu]) (CObj.abs name) id ho c bs c' tl hc hm
+
+/-- `janet_chanat_marshal` / `janet_chanat_unmarshal` are well paired for every channel state: any flags, any limit, any
+number of queued items -/
+theorem channel_hooks_paired (threaded closed : Nat) (limit : Int) (items : List Val) (h : items.length < 2147483648) :
+    WellPaired chanProg (chanItems threaded closed limit items).1 (chanItems threaded closed limit items).2 :=
+  chan_wellPaired threaded closed limit items h
+
+/-- … so a channel with queued items survives: flags, limit, and the queued values in queue order, each value with its
+sharing (a value queued twice, or also reachable from elsewhere in the graph, is one object after the round trip) -/
+theorem channel_roundtrip (T : Heap) (vf : Def → Bool) (hT : HeapCWF vf T) (fuel : Nat) (threaded closed : Nat) (limit : Int)
+    (items : List Val) (hl : Marsh.Int32 limit) (hn : items.length < 2147483648) (hv : ∀ v ∈ items, ValWF v)
+    (name : Val) (id : Nat)
+    (ho : T.objs[id]? = some (.abs name (chanItems threaded closed limit items).1 (chanItems threaded closed limit items).2))
+    (c : Ct) (bs : List Nat) (c' : Ct) (tl : List Nat) (hc : c ≤ T.size)
+    (hm : marshalHook (fun v c => marshalC fuel T v c) id (chanItems threaded closed limit items).1
+            (chanItems threaded closed limit items).2 c = some (bs, c')) :
+    unmarshalHook (fun c d => unmarshalC fuel vf c d) chanProg (CObj.abs name) c (bs ++ tl) = some (.ref id, tl, T.slice c c') := by
+  refine abstract_hook_roundtrip T vf hT fuel fuel (Nat.le_refl _) chanProg _ _ (chan_wellPaired threaded closed limit items hn)
+    ?_ ?_ (CObj.abs name) id ho c bs c' tl hc hm
+  · intro it hit; simp [chanItems] at hit; subst hit; simp [ItemWF]
+  · intro it hit
+    simp only [chanItems, List.cons_append, List.nil_append, List.mem_cons, List.mem_map] at hit
+    rcases hit with rfl | rfl | rfl | ⟨v, hvm, rfl⟩
+    · simp [ItemWF]
+    · exact hl
+    · simp only [ItemWF, Marsh.Int32]; constructor <;> omega
+    · exact hv v hvm
+
+/-- non-vacuity: a channel holding the same array twice (and an integer); the second occurrence goes out as a reference
+(`218, 1`) and comes back as the same object; bytes as `(marshal ch)` produces them after the type name -/
+example : marshalHook (fun v c => marshalC 5 ⟨[.abs .nil [.byte 0] [.byte 0, .int 10, .int 3, .janet (.ref 1), .janet (.int 7), .janet (.ref 1)],
+      .data (.array false [])], [], []⟩ v c) 0 (chanItems 0 0 10 [.ref 1, .int 7, .ref 1]).1 (chanItems 0 0 10 [.ref 1, .int 7, .ref 1]).2 ⟨0, 0, 0⟩
+    = some ([0, 0, 10, 3, 209, 0, 7, 218, 1], ⟨2, 0, 0⟩) := by decide
+
+/-- a hook pair that is not well paired (the reader asks for an int where a byte was written) is not accepted -/
+example : acceptsPre chanProg [.int 0] = none := by decide
 
 
 end JanetModel.Props.C09
